@@ -75,8 +75,39 @@ def gen_cases(rng, tier):
                     pts.append((pts[-1][0] + rng.choice([-8, 4, 16, 0]), pts[-1][1] + rng.choice([0, 0, 8, -4])))
                 else:
                     pts.append((rng.uniform(0, 40), rng.uniform(0, 40)))
-            ops += poly_ops(pts, close=rng.random() < 0.5, grid=rng.choice([64.0, 4.0, 1.0]))
+            closed = rng.random() < 0.5
+            if closed and len(pts) >= 3 and rng.random() < 0.3:
+                pts.append(pts[0])        # the contour returns to its start point before close(): no closing edge is added
+            ops += poly_ops(pts, close=closed, grid=rng.choice([64.0, 4.0, 1.0]))
         cases.append(("dash", d + [f2b(rng.choice([1.0, 0.5, 4.0]))] + ops))
+    # exact coincidences: axis-aligned polylines of integer length with integer dash arrays, so that interval boundaries land
+    # exactly on segment ends, on the contour end and on the start point of closed contours (both suites: bit-exact and oracle)
+    for i in range(400 if q else 5000):
+        n = rng.choice([2, 2, 4])
+        arr = [float(rng.choice([1, 2, 5, 10, 15, 20, 0 if rng.random() < 0.2 else 5])) for _ in range(n)]
+        if sum(arr) == 0:
+            arr[0] = 5.0
+        off = float(rng.choice([0, 0, 5, 10, 13, -5, sum(arr), arr[0]]))
+        x, y = float(rng.randint(0, 20)), float(rng.randint(0, 20))
+        pts = [(x, y)]
+        for _ in range(rng.randint(1, 4)):
+            step = rng.choice([5, 10, 20, 30, 40])
+            if rng.random() < 0.5:
+                x += rng.choice([-1, 1]) * step
+            else:
+                y += rng.choice([-1, 1]) * step
+            pts.append((x, y))
+        closed = rng.random() < 0.5
+        shape = rng.random()
+        if shape < 0.3:           # a w x h rectangle, optionally returning to the start explicitly
+            w_, h_ = rng.choice([20, 30, 40]), rng.choice([10, 30])
+            pts = [(x, y), (x + w_, y), (x + w_, y + h_), (x, y + h_)]
+            closed = True
+            if rng.random() < 0.5:
+                pts.append((x, y))
+        ops = poly_ops(pts, close=closed, grid=1.0)
+        d = [f2b(off), n] + [f2b(a) for a in arr]
+        cases.append(("dash" if i % 2 == 0 else "dash_geo", d + [f2b(1.0)] + ops))
     # dashes near / over the million-dash limit (returns before looping)
     for i in range(40 if q else 400):
         length = rng.choice([1e3, 1e4, 1e5])
